@@ -9,7 +9,7 @@ from vf.common import Scenario
 
 LEVEL = "model_checking"
 META = {
-    "bounds": "models: <=3 parameters, <=4 variables, derived chains to depth 3, <=3 reactions, <=1 surrogate with 2 outputs; "
+    "bounds": "thorough adds the full product of a model grammar (4 rate laws x 5 coefficient kinds x derived chains of depth 0-3 x untouched variable x surrogate x declaration order = 640 models); models: <=3 parameters, <=4 variables, derived chains to depth 3, <=3 reactions, <=1 surrogate with 2 outputs; "
     "time-course forms with 2 rows; every declaration order of derived/reactions/variables/parameters (thorough) "
     "or one non-identity order per kind (quick)",
     "stubs": ["pd/np module globals of mxlpy.model rebound to dtype-relaxing proxies"],
@@ -152,4 +152,7 @@ class C01(Scenario):
 
 
 def scenarios(tier, seed):
-    return [C01(s) for s in M.shapes(tier)]
+    scs = [C01(s) for s in M.shapes(tier)]
+    if tier != "quick":
+        scs += [C01(s) for s in M.grammar_shapes()]
+    return scs
